@@ -19,6 +19,9 @@ pub struct PCase {
     /// parse with a non-injective `on_instr_loc` hook (offset mod 7): several instructions, in
     /// several functions, carry the same location id
     pub loc_mod: bool,
+    /// names off, and after parsing two pairs of builder-made functions are added that share a `LocalId`
+    /// (a parameter of one, a plain local of the other)
+    pub shared_locals: bool,
 }
 
 /// n functions with the given sizes; `bad` = index of a function whose body is invalid;
@@ -83,7 +86,7 @@ pub fn inputs(tier: Tier) -> Vec<PCase> {
             let f = mb.func(t0, locals, code);
             mb.export(&format!("f{}", i), 0, f);
         }
-        v.push(PCase { name: format!("twin bodies #{}: n={} the one without the local declaration is #{}", k, n, bad_at), wasm: mb.build(), preserve_ct: false, n_funcs: *n, gc: false, loc_mod: false });
+        v.push(PCase { name: format!("twin bodies #{}: n={} the one without the local declaration is #{}", k, n, bad_at), wasm: mb.build(), preserve_ct: false, n_funcs: *n, gc: false, loc_mod: false, shared_locals: false });
     }
     // bulk-memory instructions that only dead code holds (directly after a return, and inside a
     // construct that starts after it); no passive segment, so whether a data-count section is
@@ -98,18 +101,23 @@ pub fn inputs(tier: Tier) -> Vec<PCase> {
     {
         if let Ok(wasm) = wgen::stateful::assemble(src) {
             for gc in [false, true] {
-                v.push(PCase { name: format!("data op only in dead code #{} gc={}", k, gc), wasm: wasm.clone(), preserve_ct: false, n_funcs: 2, gc, loc_mod: false });
+                v.push(PCase { name: format!("data op only in dead code #{} gc={}", k, gc), wasm: wasm.clone(), preserve_ct: false, n_funcs: 2, gc, loc_mod: false, shared_locals: false });
             }
         }
     }
+    // builder-made functions that share a LocalId (parameter here, plain local there), names off
+    for n in if tier == Tier::Quick { vec![1usize] } else { vec![1usize, 2, 3] } {
+        let inc: Vec<usize> = (1..=n).collect();
+        v.push(PCase { name: format!("n={} + two pairs of built functions sharing a local, names off", n), wasm: build(&inc, &[], false, false), preserve_ct: false, n_funcs: n + 4, gc: false, loc_mod: false, shared_locals: true });
+    }
     // one function body of more than 256 KiB (what a per-function stack or chunking heuristic would key on)
-    v.push(PCase { name: "one function of about 300 KiB".into(), wasm: build(&[37_500], &[], false, false), preserve_ct: false, n_funcs: 1, gc: false, loc_mod: false });
-    v.push(PCase { name: "two functions, the second about 300 KiB".into(), wasm: build(&[2, 37_500], &[], false, false), preserve_ct: false, n_funcs: 2, gc: false, loc_mod: false });
+    v.push(PCase { name: "one function of about 300 KiB".into(), wasm: build(&[37_500], &[], false, false), preserve_ct: false, n_funcs: 1, gc: false, loc_mod: false, shared_locals: false });
+    v.push(PCase { name: "two functions, the second about 300 KiB".into(), wasm: build(&[2, 37_500], &[], false, false), preserve_ct: false, n_funcs: 2, gc: false, loc_mod: false, shared_locals: false });
     // the code section's own size prefix at its LEB boundary: one or two functions whose entries
     // total 120..136 bytes, with the code-transform dump as the observer of every reported offset
     for n in [1usize, 2] {
         for s in 112..=134usize {
-            v.push(PCase { name: format!("n={} body size {} (code section size around 127), preserve_ct", n, s), wasm: wgen::families::build_leb_full(n, 0, s, false, false, 0, 0), preserve_ct: true, n_funcs: n, gc: false, loc_mod: false });
+            v.push(PCase { name: format!("n={} body size {} (code section size around 127), preserve_ct", n, s), wasm: wgen::families::build_leb_full(n, 0, s, false, false, 0, 0), preserve_ct: true, n_funcs: n, gc: false, loc_mod: false, shared_locals: false });
         }
     }
     let maxn = if tier == Tier::Quick { 4 } else { 6 };
@@ -123,27 +131,27 @@ pub fn inputs(tier: Tier) -> Vec<PCase> {
         }
         size_sets.dedup();
         for sizes in size_sets {
-            v.push(PCase { name: format!("sizes={:?}", sizes), wasm: build(&sizes, &[], false, false), preserve_ct: false, n_funcs: n, gc: false, loc_mod: false });
+            v.push(PCase { name: format!("sizes={:?}", sizes), wasm: build(&sizes, &[], false, false), preserve_ct: false, n_funcs: n, gc: false, loc_mod: false, shared_locals: false });
         }
         let inc: Vec<usize> = (1..=n).collect();
         for b in 0..n {
-            v.push(PCase { name: format!("n={} invalid body #{}", n, b), wasm: build(&inc, &[b], false, false), preserve_ct: false, n_funcs: n, gc: false, loc_mod: false });
+            v.push(PCase { name: format!("n={} invalid body #{}", n, b), wasm: build(&inc, &[b], false, false), preserve_ct: false, n_funcs: n, gc: false, loc_mod: false, shared_locals: false });
         }
         if n >= 2 {
-            v.push(PCase { name: format!("n={} invalid bodies #0 and #{}", n, n - 1), wasm: build(&inc, &[0, n - 1], false, false), preserve_ct: false, n_funcs: n, gc: false, loc_mod: false });
+            v.push(PCase { name: format!("n={} invalid bodies #0 and #{}", n, n - 1), wasm: build(&inc, &[0, n - 1], false, false), preserve_ct: false, n_funcs: n, gc: false, loc_mod: false, shared_locals: false });
         }
-        v.push(PCase { name: format!("n={} data+memory.init", n), wasm: build(&inc, &[], true, false), preserve_ct: false, n_funcs: n, gc: false, loc_mod: false });
+        v.push(PCase { name: format!("n={} data+memory.init", n), wasm: build(&inc, &[], true, false), preserve_ct: false, n_funcs: n, gc: false, loc_mod: false, shared_locals: false });
         // the same pipelines with a gc between parse and emit (functions deleted before the parallel emit)
-        v.push(PCase { name: format!("n={} gc", n), wasm: build(&inc, &[], false, false), preserve_ct: false, n_funcs: n, gc: true, loc_mod: false });
+        v.push(PCase { name: format!("n={} gc", n), wasm: build(&inc, &[], false, false), preserve_ct: false, n_funcs: n, gc: true, loc_mod: false, shared_locals: false });
         if n >= 2 {
-            v.push(PCase { name: format!("n={} data+memory.init only in a dead function, gc", n), wasm: build_x(&inc, &[], true, false, true), preserve_ct: false, n_funcs: n, gc: true, loc_mod: false });
-            v.push(PCase { name: format!("n={} data+memory.init only in a dead function, no gc", n), wasm: build_x(&inc, &[], true, false, true), preserve_ct: false, n_funcs: n, gc: false, loc_mod: false });
+            v.push(PCase { name: format!("n={} data+memory.init only in a dead function, gc", n), wasm: build_x(&inc, &[], true, false, true), preserve_ct: false, n_funcs: n, gc: true, loc_mod: false, shared_locals: false });
+            v.push(PCase { name: format!("n={} data+memory.init only in a dead function, no gc", n), wasm: build_x(&inc, &[], true, false, true), preserve_ct: false, n_funcs: n, gc: false, loc_mod: false, shared_locals: false });
         }
-        v.push(PCase { name: format!("n={} names+preserve_ct", n), wasm: build(&inc, &[], false, true), preserve_ct: true, n_funcs: n, gc: false, loc_mod: false });
+        v.push(PCase { name: format!("n={} names+preserve_ct", n), wasm: build(&inc, &[], false, true), preserve_ct: true, n_funcs: n, gc: false, loc_mod: false, shared_locals: false });
         // several functions share location ids (a hook mapping offsets to a handful of source lines): whose offset a shared id ends up with is decided by function order
-        v.push(PCase { name: format!("n={} preserve_ct, location ids = offset mod 7", n), wasm: build(&inc, &[], false, false), preserve_ct: true, n_funcs: n, gc: false, loc_mod: true });
+        v.push(PCase { name: format!("n={} preserve_ct, location ids = offset mod 7", n), wasm: build(&inc, &[], false, false), preserve_ct: true, n_funcs: n, gc: false, loc_mod: true, shared_locals: false });
         let dec: Vec<usize> = inc.iter().rev().cloned().collect();
-        v.push(PCase { name: format!("n={} preserve_ct, location ids = offset mod 7, sizes decreasing", n), wasm: build(&dec, &[], false, false), preserve_ct: true, n_funcs: n, gc: false, loc_mod: true });
+        v.push(PCase { name: format!("n={} preserve_ct, location ids = offset mod 7, sizes decreasing", n), wasm: build(&dec, &[], false, false), preserve_ct: true, n_funcs: n, gc: false, loc_mod: true, shared_locals: false });
     }
     v
 }
@@ -176,8 +184,42 @@ impl walrus::CustomSection for CtDump {
     }
 }
 
+
+/// two pairs of builder-made functions that share a `LocalId`: a parameter of the first, a plain
+/// local of the second (module-level locals can be used that way); each pair is adjacent in the
+/// size order walrus emits functions in, the parameter user first
+fn add_functions_sharing_locals(m: &mut walrus::Module) {
+    use walrus::{FunctionBuilder, ValType};
+    for (k, pairs) in [6i32, 2].iter().enumerate() {
+        let l = m.locals.add(ValType::I32);
+        let mut b1 = FunctionBuilder::new(&mut m.types, &[ValType::I32], &[ValType::I32]);
+        {
+            let mut body = b1.func_body();
+            for j in 0..*pairs {
+                body.i32_const(9000 + j).drop();
+            }
+            body.local_get(l);
+        }
+        let f1 = b1.finish(vec![l], &mut m.funcs);
+        let mut b2 = FunctionBuilder::new(&mut m.types, &[], &[ValType::I32]);
+        {
+            let mut body = b2.func_body();
+            for j in 0..(*pairs - 2) {
+                body.i32_const(9100 + j).drop();
+            }
+            body.i32_const(5).local_set(l).local_get(l);
+        }
+        let f2 = b2.finish(vec![], &mut m.funcs);
+        m.exports.add(&format!("shared_param_{}", k), f1);
+        m.exports.add(&format!("shared_local_{}", k), f2);
+    }
+}
+
 fn serial(c: &PCase) -> Result<Vec<u8>, ()> {
-    let cfg = Cfg { preserve_ct: c.preserve_ct, ..Cfg::default() };
+    let mut cfg = Cfg { preserve_ct: c.preserve_ct, ..Cfg::default() };
+    if c.shared_locals {
+        cfg.names = false;
+    }
     let mut m = if c.loc_mod {
         let mut wc = cfg.config();
         wc.on_instr_loc(|pos| walrus::InstrLocId::new((*pos % 7) as u32));
@@ -187,6 +229,9 @@ fn serial(c: &PCase) -> Result<Vec<u8>, ()> {
     };
     if c.preserve_ct {
         m.customs.add(CtDump::default());
+    }
+    if c.shared_locals {
+        std::panic::catch_unwind(std::panic::AssertUnwindSafe(|| add_functions_sharing_locals(&mut m))).map_err(|_| ())?;
     }
     if c.gc {
         gc(&mut m).map_err(|_| ())?;
@@ -264,11 +309,11 @@ pub fn real_inputs() -> Vec<PCase> {
     let mut v = vec![];
     for (n, classes) in [(64usize, 1usize), (200, 4), (600, 3)] {
         let sizes: Vec<usize> = (0..n).map(|i| 1 + i % classes).collect();
-        v.push(PCase { name: format!("{} functions in {} size classes", n, classes), wasm: build(&sizes, &[], false, true), preserve_ct: true, n_funcs: n, gc: false, loc_mod: false });
+        v.push(PCase { name: format!("{} functions in {} size classes", n, classes), wasm: build(&sizes, &[], false, true), preserve_ct: true, n_funcs: n, gc: false, loc_mod: false, shared_locals: false });
     }
     let sizes: Vec<usize> = (0..150).map(|i| 1 + i % 2).collect();
-    v.push(PCase { name: "150 functions, invalid body #149".into(), wasm: build(&sizes, &[149], false, false), preserve_ct: false, n_funcs: 150, gc: false, loc_mod: false });
-    v.push(PCase { name: "150 functions, data + memory.init".into(), wasm: build(&sizes, &[], true, false), preserve_ct: false, n_funcs: 150, gc: false, loc_mod: false });
+    v.push(PCase { name: "150 functions, invalid body #149".into(), wasm: build(&sizes, &[149], false, false), preserve_ct: false, n_funcs: 150, gc: false, loc_mod: false, shared_locals: false });
+    v.push(PCase { name: "150 functions, data + memory.init".into(), wasm: build(&sizes, &[], true, false), preserve_ct: false, n_funcs: 150, gc: false, loc_mod: false, shared_locals: false });
     v
 }
 
@@ -278,7 +323,7 @@ fn write_cases(path: &std::path::Path, cases: &[PCase]) -> Result<(), String> {
         let exp = serial(c);
         f.write_all(&(c.wasm.len() as u32).to_le_bytes()).unwrap();
         f.write_all(&c.wasm).unwrap();
-        f.write_all(&[c.preserve_ct as u8 | (c.gc as u8) << 1 | (c.loc_mod as u8) << 2, exp.is_ok() as u8]).unwrap();
+        f.write_all(&[c.preserve_ct as u8 | (c.gc as u8) << 1 | (c.loc_mod as u8) << 2 | (c.shared_locals as u8) << 3, exp.is_ok() as u8]).unwrap();
         let e = exp.unwrap_or_default();
         f.write_all(&(e.len() as u32).to_le_bytes()).unwrap();
         f.write_all(&e).unwrap();
@@ -323,7 +368,7 @@ fn run_real(args: &Args, ev: &mut Ev, tier: Tier) -> Vec<Violation> {
                     family: "parallel-free-running".into(),
                     coords: format!("{} RAYON threads={}", c.name, v["threads"]),
                     wasm: c.wasm.clone(),
-                    cfg: json!({"free_running": true, "threads": v["threads"], "preserve_ct": c.preserve_ct, "gc": c.gc, "loc_mod": c.loc_mod}),
+                    cfg: json!({"free_running": true, "threads": v["threads"], "preserve_ct": c.preserve_ct, "gc": c.gc, "loc_mod": c.loc_mod, "shared_locals": c.shared_locals}),
                 };
                 let d = v["detail"].as_str().unwrap_or("");
                 viol.push(Violation::new("C09", format!("{}:free-running", sig_of(d)), format!("{} (real rayon-core, {} threads; sampling supplement)", d, v["threads"]), &case));
@@ -408,7 +453,7 @@ fn recheck(args: &Args, c: &Case) -> Vec<Violation> {
         // a schedule of the free-running pool cannot be replayed; re-run the same input with more
         // repeats: it must fail again to be reported
         let exe = args.verif.join("harness-par-real/target/verif/wreal");
-        let pc = PCase { name: c.coords.clone(), wasm: c.wasm.clone(), preserve_ct: c.cfg["preserve_ct"].as_bool().unwrap_or(false), n_funcs: 0, gc: c.cfg["gc"].as_bool().unwrap_or(false), loc_mod: c.cfg["loc_mod"].as_bool().unwrap_or(false) };
+        let pc = PCase { name: c.coords.clone(), wasm: c.wasm.clone(), preserve_ct: c.cfg["preserve_ct"].as_bool().unwrap_or(false), n_funcs: 0, gc: c.cfg["gc"].as_bool().unwrap_or(false), loc_mod: c.cfg["loc_mod"].as_bool().unwrap_or(false), shared_locals: c.cfg["shared_locals"].as_bool().unwrap_or(false) };
         let dir = args.verif.join("work").join("c09").join(format!("real-replay{}", std::process::id()));
         let _ = std::fs::create_dir_all(&dir);
         let cpath = dir.join("cases.bin");
@@ -427,7 +472,7 @@ fn recheck(args: &Args, c: &Case) -> Vec<Violation> {
         }
         return vec![];
     }
-    let pc = PCase { name: c.coords.clone(), wasm: c.wasm.clone(), preserve_ct: c.cfg["preserve_ct"].as_bool().unwrap_or(false), n_funcs: 0, gc: c.cfg["gc"].as_bool().unwrap_or(false), loc_mod: c.cfg["loc_mod"].as_bool().unwrap_or(false) };
+    let pc = PCase { name: c.coords.clone(), wasm: c.wasm.clone(), preserve_ct: c.cfg["preserve_ct"].as_bool().unwrap_or(false), n_funcs: 0, gc: c.cfg["gc"].as_bool().unwrap_or(false), loc_mod: c.cfg["loc_mod"].as_bool().unwrap_or(false), shared_locals: c.cfg["shared_locals"].as_bool().unwrap_or(false) };
     let item = json!({"case": 0, "threads": c.cfg["threads"], "migrated": c.cfg["migrated"], "mode": "replay", "schedule": c.cfg["schedule"]});
     match run_wpar(args, &[pc], &[item], &format!("replay{}", std::process::id())) {
         Ok(r) if r[0]["verdict"] == "diff" => vec![Violation::new("C09", sig_of(r[0]["detail"].as_str().unwrap_or("")), r[0]["detail"].as_str().unwrap_or("").to_string(), c)],
@@ -491,7 +536,7 @@ pub fn run(args: &Args) -> i32 {
                     family: "parallel".into(),
                     coords: format!("{} T={} migrated={}", c.name, it["threads"], it["migrated"]),
                     wasm: c.wasm.clone(),
-                    cfg: json!({"threads": it["threads"], "migrated": it["migrated"], "schedule": r["schedule"], "preserve_ct": c.preserve_ct, "gc": c.gc, "loc_mod": c.loc_mod}),
+                    cfg: json!({"threads": it["threads"], "migrated": it["migrated"], "schedule": r["schedule"], "preserve_ct": c.preserve_ct, "gc": c.gc, "loc_mod": c.loc_mod, "shared_locals": c.shared_locals}),
                 };
                 let d = r["detail"].as_str().unwrap_or("");
                 viol.push(Violation::new("C09", sig_of(d), format!("{} under schedule {}", d, r["schedule"]), &case));
